@@ -2,7 +2,7 @@
 # usage: seedkeep2.sh <property-id> <src-name (patch1|patch2|extra_patchA)> <dst-n> "<needs>" "<result>"  (round-2 seeds from /tmp/seedout2)
 ID=$1; SRC=$2; N=$3; NEEDS=$4; RESULT=$5
 D=/verif/seeded/$ID-$N; mkdir -p $D
-S=/tmp/seedout2/$ID
+S=${SEEDROOT:-/tmp/seedout2}/$ID
 if [ -f $S/$SRC.rebased.diff ]; then cp $S/$SRC.rebased.diff $D/patch.diff; cp $S/$SRC.diff $D/patch.original.diff; else cp $S/$SRC.diff $D/patch.diff; fi
 k=${SRC#patch}; k=${k#extra_patch}
 for f in $S/demo$k.* $S/demo${k}b.* $S/extra_demo$k.*; do [ -e "$f" ] && [ $(stat -c %s "$f") -lt 200000 ] && cp "$f" $D/; done
@@ -10,5 +10,5 @@ cp $S/NOTES.md $D/NOTES.md 2>/dev/null
 python3 - "$ID" "$N" "$NEEDS" "$RESULT" <<'PY'
 import json,sys
 id,n,needs,result=sys.argv[1:5]
-json.dump({"property":id,"seed":f"{id}-{n}","round":2,"needs_to_manifest":needs,"what_was_run":result,"origin":"independent sub-agent (second round, on the repaired tree) given only the property text and a scratch worktree"},open(f"/verif/seeded/{id}-{n}/meta.json","w"),indent=1)
+json.dump({"property":id,"seed":f"{id}-{n}","round":int(__import__("os").environ.get("ROUND","2")),"needs_to_manifest":needs,"what_was_run":result,"origin":"independent sub-agent (later round, on the repaired tree) given only the property text and a scratch worktree"},open(f"/verif/seeded/{id}-{n}/meta.json","w"),indent=1)
 PY
